@@ -20,12 +20,57 @@ def by_name(name):
 
 P = "proof"
 CLAIMS = {
+    'C01': dict(level=P, text="Interface contract I (row clauses R0-R6, completeness C1, non-emptiness NE) is proved for every "
+                "evaluator on the single-variable path from the current source text: Variable (explicit domain), "
+                "DomainMapping + Attribute/Index/Call mappings, Comparator, AND, ElseIf, Not / inverse table, An, Entity, "
+                "QueryObjectDescriptor._evaluate_, An.evaluate (the value handed out is the selected binding of each row). By "
+                "induction over the condition tree the rows of the root are exactly the domain objects whose condition is "
+                "true under the reference semantics Den (Python's operators on the attribute values).",
+                note="order / multiplicity of the rows ('each once, in domain order') is argued from R1 + the loop structure in "
+                     "DESIGN.md and exercised by the native oracle (bounded, not counted as proved); result caching switched "
+                     "off in these obligations (cache transparency is C05); T1 tree-shape, T3, T4 assumptions; LeafExt lemma"),
+    'C02': dict(level=P, text="The same interface obligations for the multi-variable path: Comparator with either operand "
+                "order, AND threading bindings left to right, ElseIf, QueryObjectDescriptor._evaluate_ with one and two "
+                "selected variables (bound ones keep their binding, unbound ones are completed over their domain, all under "
+                "one binding), SetOf, Entity: soundness and completeness of the set of rows against Den over the product of "
+                "the domains.",
+                note="Union (disjunction over different variable sets is currently always built as ElseIf, see DESIGN) and the "
+                     "row count clause are not covered deductively; caching off; T1, T3, T4; LeafExt"),
     'C03': dict(level=P, text="Every obligation generated from the current text of Comparator._invert_ (setter), Not and "
                 "DomainMapping._evaluate__ is discharged for all operand states: Den_post(Not(c)) == not Den_pre(c) for every "
                 "operand class and every operator, including already inverted operands (so Not(Not(c)) means c), and the "
                 "evaluators honour the inverted operator / flag.",
                 note="order operators read through a total order `key` (DESIGN 2.2); membership uninterpreted; structural "
                      "induction over the tree (A9); recursion of Not assumed by its own contract (measure: height)"),
+    'C06': dict(level=P, text="The._evaluate_: with k the number of rows of the descriptor's stream, k=0 raises NoSolutionFound, "
+                "k=1 returns that row (re-exporting the selected binding under its own id when there is a single selected "
+                "variable, safely for set_of), k>=2 raises MultipleSolutionFound, for every state earlier evaluations may have "
+                "left in the node's flags. The.evaluate: evaluates with symbolic mode off, returns _process_result_ of that "
+                "row and resets the query on every exit (return and all three exception exits).",
+                note="`an` consistency: both quantifiers map _process_result_ over the rows of the same descriptor stream; "
+                     "_process_result_ for set_of (UnificationDict) not interpreted"),
+    'C08': dict(level=P, text="symbolic_mode and rule_mode (real generator bodies executed, body of the block arbitrary but "
+                "balanced): mode cell and expression stack are restored on normal and exceptional exit. An.evaluate: at every "
+                "suspension point and at every exit (normal, abandoned, exception) the mode cell equals its value at the "
+                "last resume; The.evaluate likewise.",
+                note="single context (A5): thread / asyncio schedules are outside this family and not claimed; mode dependent "
+                     "construction (@symbol __new__, @predicate wrapper, operator rejection) is covered by the C09/C14 "
+                     "contracts where built; induction over nesting depth and histories (A9)"),
+    'C09': dict(level=P, text="Precondition propagation: the evaluators require mode None (constructors called during evaluation "
+                "are mode dependent); An.evaluate establishes it for every pull of the evaluation whatever the caller did "
+                "since the last resume, The.evaluate for its single evaluation; both restore the caller's mode.",
+                note="the mode-dependent constructors themselves (hybrid_new, predicate wrapper) are not yet under contract"),
+    'C15': dict(level=P, text="An._evaluate__ proved against I with Den(An(descriptor)) = Den(conditions of the descriptor) and "
+                "the own id re-exporting the selected binding; a quantifier used as an operand restricts the operand to its "
+                "solutions (wd_extra clause in Comparator / DomainMapping); The._evaluate_ re-exports likewise; Entity / SetOf "
+                "/ QueryObjectDescriptor._evaluate_ proved for bound and unbound selected variables.",
+                note="predicate-form constructor arguments (C13) not included; T1, T3"),
+    'C16': dict(level=P, text="Flatten._apply_mapping_ yields exactly one HashedValue per element of the input value in order "
+                "(a non-iterable is a singleton): soundness and completeness against MapRel; DomainMapping._evaluate__ keeps "
+                "the child's bindings in every row; QueryObjectDescriptor._evaluate_ / SetOf evaluate all selected "
+                "expressions of a row under one binding, so the flattened element stays correlated with its parent whether "
+                "or not the parent is selected or further conditions exist.",
+                note="iteration protocol of user iterables (A6): element j for 0 <= j < len; T1, T3"),
     'C19': dict(level=P, text="R5/C1 of the interface contract at every value-position call site: DomainMapping (attribute, "
                 "index, call, flatten), Comparator operands, selected expressions in QueryObjectDescriptor/Entity/SetOf "
                 "deliver a row for every binding whatever truthy(value) is; `truthy` is an unconstrained function in the "
